@@ -536,7 +536,7 @@ func sameLeaves(r, w []leaf, skip map[string]bool) (bool, string) {
 			}
 			continue
 		}
-		if leafKey(a.id) != leafKey(b.id) || a.width != b.width || a.order != b.order {
+		if !sameWireName(a, b) || a.width != b.width || a.order != b.order {
 			return false, fmt.Sprintf("position %d: reader consumes %s, writer emits %s", k+1, a, b)
 		}
 	}
@@ -601,7 +601,13 @@ func (c *Ctx) codecWrapper(fn *ssa.Function) *wrapperInfo {
 			calls = append(calls, call)
 		default:
 			if callee := ir.Callee(call); callee != nil && c.P.InLib(callee) {
-				other = true // wrappers do nothing else in the library
+				// other library calls are fine as long as they do not get the stream
+				// (error decoration helpers); a second consumer of the stream is not
+				for _, a := range call.Call.Args {
+					if id := ir.NamedTypeID(a.Type()); id == "io.Reader" || id == "io.Writer" || id == "bytes.Buffer" {
+						other = true
+					}
+				}
 			}
 		}
 	})
@@ -732,4 +738,23 @@ func leafKey(id string) string {
 		return strings.Join(parts[2:], ".")
 	}
 	return rest
+}
+
+func lastComponent(id string) string {
+	if k := strings.LastIndex(id, "."); k >= 0 {
+		return id[k+1:]
+	}
+	return id
+}
+
+// sameWireName: two leaves name the same wire datum. Field leaves compare by
+// their last path component (the same datum is often held in differently named
+// Go structs on the two sides); a datum read into / written from a plain local
+// has no name and matches by width and order alone.
+func sameWireName(a, b leaf) bool {
+	local := func(l leaf) bool { return l.src != nil && l.src.field == nil && !strings.Contains(l.id, ".") }
+	if local(a) || local(b) {
+		return true
+	}
+	return lastComponent(a.id) == lastComponent(b.id)
 }
